@@ -310,18 +310,24 @@ func (l *irLoader) loadRule(group *ir.RuleGroup, rule *ir.Rule) error {
 		}
 	}
 	for _, pat := range rule.CommentPatterns {
-		if err := l.loadCommentRule(proto, rule, pat.Value, pat.Line); err != nil {
+		if err := l.loadCommentRule(proto, info, rule, pat.Value, pat.Line); err != nil {
 			return err
 		}
 	}
 	return nil
 }
 
-func (l *irLoader) loadCommentRule(resultProto goRule, rule *ir.Rule, src string, line int) error {
+func (l *irLoader) loadCommentRule(resultProto goRule, filterInfo filterInfo, rule *ir.Rule, src string, line int) error {
 	dst := l.res.universal
 	pat, err := regexp.Compile(src)
 	if err != nil {
 		return l.errorf(rule.Line, err, "compile regexp")
+	}
+	err = l.checkBoundVars(rule, filterInfo, func(name string) bool {
+		return pat.SubexpIndex(name) != -1
+	})
+	if err != nil {
+		return err
 	}
 	resultBase := resultProto
 	resultBase.line = line
@@ -332,6 +338,23 @@ func (l *irLoader) loadCommentRule(resultProto goRule, rule *ir.Rule, src string
 	}
 	dst.commentRules = append(dst.commentRules, result)
 
+	return nil
+}
+
+// checkBoundVars checks that a pattern alternative binds every variable
+// that is used by the rule filter and by the rule location.
+func (l *irLoader) checkBoundVars(rule *ir.Rule, filterInfo filterInfo, bound func(name string) bool) error {
+	for filterVar := range filterInfo.Vars {
+		if filterVar == "$$" {
+			continue // OK: a predefined var for the "entire match"
+		}
+		if !bound(filterVar) {
+			return l.errorf(rule.Line, nil, "filter refers to a non-existing var %s", filterVar)
+		}
+	}
+	if rule.LocationVar != "" && rule.LocationVar != "$$" && !bound(rule.LocationVar) {
+		return l.errorf(rule.Line, nil, "location refers to a non-existing var %s", rule.LocationVar)
+	}
 	return nil
 }
 
@@ -364,14 +387,12 @@ func (l *irLoader) loadSyntaxRule(group *ir.RuleGroup, resultProto goRule, filte
 	}
 	result.pat = pat
 
-	for filterVar := range filterInfo.Vars {
-		if filterVar == "$$" {
-			continue // OK: a predefined var for the "entire match"
-		}
-		_, ok := info.Vars[filterVar]
-		if !ok {
-			return l.errorf(rule.Line, nil, "filter refers to a non-existing var %s", filterVar)
-		}
+	err = l.checkBoundVars(rule, filterInfo, func(name string) bool {
+		_, ok := info.Vars[name]
+		return ok
+	})
+	if err != nil {
+		return err
 	}
 
 	dst := l.res.universal
@@ -675,6 +696,7 @@ func (l *irLoader) newFilter(filter ir.FilterExpr, info *filterInfo) (matchFilte
 	case ir.FilterVarTypeIdenticalToOp:
 		lhsVarname := filter.Value.(string)
 		rhsVarname := filter.Args[0].Value.(string)
+		info.Vars[rhsVarname] = struct{}{}
 		result.fn = makeTypesIdenticalFilter(result.src, lhsVarname, rhsVarname)
 
 	case ir.FilterVarTypeIsOp, ir.FilterVarTypeUnderlyingIsOp:
@@ -869,6 +891,11 @@ func (l *irLoader) newBinaryExprFilter(filter ir.FilterExpr, info *filterInfo) (
 
 	lhs := filter.Args[0]
 	rhs := filter.Args[1]
+	for _, operand := range filter.Args {
+		if operand.HasVar() {
+			info.Vars[operand.Value.(string)] = struct{}{}
+		}
+	}
 	var rhsValue constant.Value
 	switch rhs.Op {
 	case ir.FilterStringOp:
